@@ -30,7 +30,7 @@ ASSUMPTIONS = ["exactly one precondition is violated per case"]
 EXPLANATION = ("Theorems: each validator of the model rejects iff the documented predicate holds for some ballot / "
                "entry, with exact boundaries, and a rejected request yields no state list.")
 
-N_QUICK, N_THOROUGH = 2000, 24000
+N_QUICK, N_THOROUGH = 2000, 72000
 
 RANK_RULES = ["STV", "IRV", "SequentialRCV", "Plurality", "SNTV", "Borda", "TopTwo", "Alaska", "DominatingSets",
               "CondoBorda", "RandomDictator", "BoostedRandomDictator", "PluralityVeto"]
